@@ -55,11 +55,20 @@ func harnessC03ExitDegenerate() {
 	c19IsIP, c19IP = true, net.IP{10, 0, 0, 1}
 	c19DialConn = &c03Conn{}
 	c19Acks, c19Errs = 0, 0
-	var zero [crypto.KeySize]byte
-	h.HandleStreamOpen(context.Background(), 5, 9, identity.AgentID{2}, "x", 80, zero)
+	// arbitrary remote key: all-zero, or a point whose (uninterpreted) product may be the zero secret
+	var k [crypto.KeySize]byte
+	k[0], k[31] = verif_nondet_u8(), verif_nondet_u8()
+	h.HandleStreamOpen(context.Background(), 5, 9, identity.AgentID{2}, "x", 80, k)
 	verif_drain()
 	c19DialConn = nil
 	verif_reach("C03/exit-degenerate")
-	verif_assert(c19Acks == 0 && h.GetConnection(5) == nil, "C03/exit-accepted-all-zero-remote-key")
-	verif_assert(c19Errs == 1, "C03/exit-degenerate-key-not-reported")
+	verif_assert(c19Acks+c19Errs == 1, "C03/exit-open-answered-other-than-exactly-once")
+	if c19Errs > 0 {
+		verif_reach("C03/exit-degenerate-refused")
+		verif_assert(c19Acks == 0 && h.GetConnection(5) == nil, "C03/exit-tunnel-kept-after-refused-key-agreement")
+	}
+	if k == ([crypto.KeySize]byte{}) {
+		verif_assert(c19Acks == 0 && h.GetConnection(5) == nil, "C03/exit-accepted-all-zero-remote-key")
+		verif_assert(c19Errs == 1, "C03/exit-degenerate-key-not-reported")
+	}
 }
